@@ -79,12 +79,18 @@ fn main() {
         for shift_kind in 0..2 {
             // pm_*: several periodic columns in ONE call, in ascending / descending / mixed period
             // order (the per-call state of the gadget must not leak from one column to the next)
-            for gadget in ["selectors", "periodic1", "periodic2", "periodic4", "periodic2z", "periodic4z", "periodic4s", "periodic4m", "exp", "pm_2_4", "pm_4_2", "pm_1_2_4_2", "pm_2_4_8", "pm_8_4_2_8", "pm_2_1_8_4"] {
+            for gadget in ["selectors", "periodic1", "periodic2", "periodic4", "periodic2z", "periodic4z", "periodic4s", "periodic4m", "exp", "pm_2_4", "pm_4_2", "pm_1_2_4_2", "pm_2_4_8", "pm_8_4_2_8", "pm_2_1_8_4", "quotient1", "quotient2", "quotient4", "quotient8"] {
                 job += 1;
                 if job % args.nshards != args.shard {
                     continue;
                 }
                 let multi: Vec<usize> = if let Some(rest) = gadget.strip_prefix("pm_") { rest.split('_').map(|x| x.parse().unwrap()).collect() } else { vec![] };
+                // quotient recomposition: the quotient domain of the trace coset is split into n chunk
+                // domains; chunk coefficients are symbolic
+                let n_chunks: usize = gadget.strip_prefix("quotient").map(|x| x.parse().unwrap()).unwrap_or(0);
+                if n_chunks > 0 && log_size > 4 {
+                    continue;
+                }
                 let period = match gadget { "periodic1" => 1usize, "periodic2" | "periodic2z" => 2, "periodic4" | "periodic4z" | "periodic4s" | "periodic4m" => 4, _ => multi.iter().copied().max().unwrap_or(0) };
                 if period > (1 << log_size) {
                     continue;
@@ -117,7 +123,21 @@ fn main() {
                     _ if period > 0 => vec![(0..period).map(|_| SF::c(rnd())).collect()],
                     _ => vec![],
                 };
+                let (qdoms, qchunks): (Vec<Dom>, Vec<Vec<SCh>>) = if n_chunks > 0 {
+                    let qdom = dom.create_disjoint_domain((1usize << log_size) * n_chunks);
+                    let ds = qdom.split_domains(n_chunks);
+                    let cs = (0..n_chunks)
+                        .map(|i| (0..<SCh as BasedVectorSpace<SF>>::DIMENSION).map(|k| SCh::from(SF::var(format!("q{i}_{k}"), rnd()))).collect())
+                        .collect();
+                    (ds, cs)
+                } else {
+                    (vec![], vec![])
+                };
                 match gadget {
+                    _ if n_chunks > 0 => {
+                        let base_chunks: Vec<Vec<SCh>> = qchunks.clone();
+                        native.push(("quotient".into(), p3_uni_stark::recompose_quotient_from_chunks::<SConfig>(&qdoms, &base_chunks, zeta)));
+                    }
                     "selectors" => {
                         let s = dom.selectors_at_point(zeta);
                         native.push(("is_first_row".into(), s.is_first_row));
@@ -135,7 +155,9 @@ fn main() {
                 // ---- circuit ----
                 let mut cb = CircuitBuilder::<SCh>::new();
                 let pt = cb.public_input();
+                let qtargets: Vec<Vec<p3_circuit::ExprId>> = qchunks.iter().map(|c| c.iter().map(|_| cb.public_input()).collect()).collect();
                 let outs: Vec<p3_circuit::ExprId> = match gadget {
+                    _ if n_chunks > 0 => vec![p3_recursion::verifier::recompose_quotient_from_chunks_circuit::<SConfig, InputProof, InnerFri, MerkleCapTargets<SF, 8>, Dom>(&mut cb, &qdoms, &qtargets, pt, &pcs)],
                     "selectors" => {
                         let s = sel_circuit(&pcs, &mut cb, &dom, &pt);
                         vec![s.row_selectors.is_first_row, s.row_selectors.is_last_row, s.row_selectors.is_transition, s.inv_vanishing]
@@ -145,7 +167,9 @@ fn main() {
                 };
                 let circuit = cb.build().expect("build");
                 let mut runner = circuit.runner();
-                runner.set_public_inputs(&[zeta]).unwrap();
+                let mut pubs = vec![zeta];
+                pubs.extend(qchunks.iter().flatten().copied());
+                runner.set_public_inputs(&pubs).unwrap();
                 let tr = match runner.run() {
                     Ok(t) => t,
                     Err(e) => {
